@@ -53,6 +53,8 @@ pub fn all() -> Vec<CfgEntry> {
     add!(v, true, A32d, GuardMem, Cl);
     add!(v, false, A64d, GuardMem, Cl);
     add!(v, true, L160d, GuardMem, Cl);
+    add!(v, true, M40d, GuardMem, Cl);
+    add!(v, false, H72d, GuardMem, Cl);
     // every layout on the built-in heap backend
     #[cfg(feature = "alloc")]
     {
@@ -76,6 +78,8 @@ pub fn all() -> Vec<CfgEntry> {
         add!(v, true, A32d, Heap, Cl);
         add!(v, false, A64d, Heap, Cl);
         add!(v, true, L160d, Heap, Cl);
+        add!(v, false, M40d, Heap, Cl);
+        add!(v, true, H72d, Heap, Cl);
         // all eight constraint sets on two layouts
         add!(v, false, W8d, Heap, dyn TNone);
         add!(v, false, W8d, Heap, dyn Send);
@@ -101,6 +105,7 @@ pub fn all() -> Vec<CfgEntry> {
     add!(v, false, T12d, Stack<80>, Cl);
     add!(v, true, S24d, Stack<150>, Cl);
     add!(v, false, L160d, Stack<1000>, Cl);
+    add!(v, false, M40d, Stack<250>, Cl);
     add!(v, false, W8d, Stack<55>, dyn TNone);
     add!(v, false, Z0d, StackN<6, 0>, Cl);
     add!(v, false, U1d, StackN<6, 6>, Cl);
